@@ -93,6 +93,15 @@ def r_accept(ck: Checker) -> None:
         itp = ck.interp(func, Pins.of(facts={key: True}))
         back = itp.loop_back.get(id(rloop), [])
         ck.add(f"rejected when {key}", not back and itp.reachable(rloop), func, rloop, f"under `{key}` an iteration can complete without rejecting: {bool(back)}", why)
+    uh = ck.prg.funcs.get(f"ngo.{DP}.add_domain_rules.<locals>.unbounded_head")
+    ck.need(uh is not None, "unbounded_head exists")
+    hv = single_def(uh, "head_variables")  # type: ignore[arg-type]
+    hv_txt = unparse(hv) if hv is not None else ""
+    augs = [n for n in find_nodes(uh.node, lambda n: isinstance(n, ast.AugAssign)) if unparse(n.target) == "head_variables"]  # type: ignore[union-attr,attr-defined]
+    ok_hv = (same(hv_txt, "set(map(lambda x: x.name, collect_ast(head, 'Variable')))") or same(hv_txt, "{x.name for x in collect_ast(head, 'Variable')}")) and len(augs) == 1 and isinstance(augs[0].op, ast.Sub) \
+        and (same(unparse(augs[0].value), "set(map(lambda x: x.name, collect_bound_variables(condition)))") or same(unparse(augs[0].value), "{x.name for x in collect_bound_variables(condition)}"))
+    ck.add("unbounded head = some variable ANYWHERE in the head atom is not bound by the condition", ok_hv, uh, uh.node, f"head_variables = `{short(hv_txt, 90)}` minus `{short(unparse(augs[0].value), 80) if augs else None}`",  # type: ignore[arg-type,union-attr]
+           "the head of a min/max domain rule is `__max_0_N(<weight>)`: a weight `V*X` whose X is bound outside the aggregate gives the unsafe rule `__dom(V*X) :- __dom_p(V)` when only plain variable arguments are looked at")
     inner = [n for n in find_nodes(rloop, lambda n: isinstance(n, ast.For)) if n is not rloop]
     ck.need(len(inner) == 1, "conditions of every rule are examined in a loop")
     cond = unparse(inner[0].target)  # type: ignore[attr-defined]
@@ -320,7 +329,7 @@ def r_compute_domains(ck: Checker) -> None:
 
 RULES = [
     Rule("C20.nonstatic", P + ("C03",), r_nonstatic),
-    Rule("C20.accept", P + ("C12", "C13"), r_accept),
+    Rule("C20.accept", P + ("C12", "C13"), r_accept, extra={"C04": ("unbounded head",)}),
     Rule("C20.TEMPLATE.next", P + ("C12", "C13"), r_next_template),
     Rule("C20.create-domain", P + ("C12", "C13"), r_create_domain),
     Rule("C20.compute-domains", P + ("C12", "C13"), r_compute_domains),
